@@ -131,6 +131,28 @@ def _shrink_candidates(step):
         c = copy.deepcopy(step)
         del c["track"]["af"]
         yield c
+    if isinstance(step.get("tree"), list):
+        # expression trees (track world): hoist a sub-expression into the place of its parent
+        def subtrees(t, path=()):
+            if t[0] == "b":
+                yield from ((path + (i,), t[i]) for i in (2, 3))
+                yield from subtrees(t[2], path + (2,))
+                yield from subtrees(t[3], path + (3,))
+            elif t[0] == "f":
+                yield (path + (2,), t[2])
+                yield from subtrees(t[2], path + (2,))
+        for path, sub in list(subtrees(step["tree"])):
+            if sub[0] == "l":
+                continue
+            c = copy.deepcopy(step)
+            if len(path) == 1:
+                c["tree"] = copy.deepcopy(sub)
+            else:
+                tgt = c["tree"]
+                for q in path[:-2]:
+                    tgt = tgt[q]
+                tgt[path[-2]] = copy.deepcopy(sub)
+            yield c
 
 
 def shrink_args(cls, cfg, steps, key, budget=300):
